@@ -133,6 +133,7 @@ func runC01(c *Ctx) {
 	c.rule("C01", "inval", "T-PAIR: backend data mutation ⇒ AttrCache.Invalidate(same path) on every path from the success edge to the reply, before any cache read; lifted through wrappers", 2)
 	runInval(c, "C01", "data")
 	runC01Slots(c)
+	runC01AttrFresh(c, "C01")
 }
 
 func runC02(c *Ctx) {
@@ -141,6 +142,7 @@ func runC02(c *Ctx) {
 	runC02Extra(c)
 	// the node behind a handle is a per-handle cache of the object's type (shared with C05)
 	runC05Atomic(c, "C02")
+	runC02TreeScan(c, "C02")
 }
 
 func runInval(c *Ctx, prop, family string) {
